@@ -18,6 +18,7 @@ META = {
     "assumptions": ["titles are letters only, so a title line can never parse as a data row",
                     "non-finite entries are only placed in plain numeric arrays (the statement's parenthesis)"],
 }
+REQUIRED_REACH = ['utilities/disp.py:disp']
 REQUIRED_CLAUSES = ["total", "stdout", "elements", "elements_latex", "noprint"]
 
 ROWCH = "║╔╚"
